@@ -71,7 +71,11 @@ func c03Cases() []c03Case {
 					out = append(out, c03Case{ver, "s", "cert", key, false, false, policy, dev})
 				}
 			}
-			out = append(out, c03Case{ver, "s", "cert", key, false, true, 4, "none"})
+			for policy := 1; policy <= 4; policy++ {
+				// the application's own verdict on the client certificate (a refusing VerifyPeerCertificate)
+				// counts under every policy that asks for one
+				out = append(out, c03Case{ver, "s", "cert", key, false, true, policy, "none"})
+			}
 			if ver == 13 {
 				for _, policy := range []int{0, 2, 4} {
 					out = append(out, c03Case{ver, "s", "cert", key, false, false, policy, "ack-instead-of-auth"})
